@@ -406,7 +406,15 @@ pub fn run(a: &Args) {
     let nmax = if quick { 16 } else { 21 };
     match prop.as_str() {
         "C05" => {
-            let corp = corpus(a, seed, if quick { 150 } else { 600 }, true);
+            let mut corp = corpus(a, seed, if quick { 150 } else { 600 }, true);
+            // every octet value at a tag position, after a delimiter and after a complete attribute
+            for t in 0..=255u8 {
+                let mut b = vec![1u8, 1, 0, 2, 0, 0, 0, 1, 1, t, 0, 1, b'a', 0, 1, b'x', 3];
+                corp.push((format!("tag-{:02x}", t), b.clone()));
+                b.truncate(9);
+                b.extend_from_slice(&[0x44, 0, 1, b'k', 0, 1, b'v', t, 0, 0, 0, 0, 3]);
+                corp.push((format!("tag2-{:02x}", t), b));
+            }
             for (id, bytes) in &corp {
                 let data = Arc::new(bytes.clone());
                 let (endv, _) = cx.msg(id, &data);
